@@ -72,11 +72,31 @@ def sankey_case(rec, hub, rng, tier, i):
             key = l if rng.random() < 0.5 else dnames[l]
             colors[n] = (key, [f"hsl({10 * j},50,50)" for j in range(len(items[l]) + int(rng.integers(0, 2)))])
             split[n] = l
-    sig = f"f={len(names)}|ex_p={len(excl_p)}|ex_f={len(excl_f)}|slice={sorted(slice_dict)}|split={len(split)}"
+    # display names for some flows and processes - also for flows that are excluded, and (sometimes) a display name that is itself
+    # the name of another flow or process
+    disp = {}
+    if rng.random() < 0.5:
+        for n in names + list(d.processes):
+            if rng.random() < 0.35 or (n in excl_f and rng.random() < 0.7):
+                disp[n] = f"<{n}>" if rng.random() < 0.7 else str(rng.choice(names + list(d.processes)))
+    dn = lambda s_: disp.get(s_, s_)
+    # a first plot() that must fail (slice_dict names an unknown item of a dimension that not every flow has), corrected afterwards
+    fail_first = bool(rng.random() < 0.25) and bool(slice_dict)
+    sig = f"f={len(names)}|ex_p={len(excl_p)}|ex_f={len(excl_f)}|slice={sorted(slice_dict)}|split={len(split)}|disp={len(disp)}|ff={int(fail_first)}"
     rec.event(MS, sig=sig, cls=f"sankey|excl={len(excl_p)}+{len(excl_f)}|slice={len(slice_dict)}|split={'yes' if split else 'no'}",
               sample={"flows": names[:5], "exclude_processes": excl_p, "exclude_flows": excl_f, "slice_dict": {k_: str(v) for k_, v in slice_dict.items()}, "split": split})
     try:
-        plotter = sk.PlotlySankeyPlotter(mfa=mfa, slice_dict=dict(slice_dict), exclude_processes=list(excl_p), exclude_flows=list(excl_f), flow_color_dict=dict(colors))
+        kw_disp = {"display_names": dict(disp)} if disp else {}
+        if fail_first:
+            bad_l = sorted(slice_dict)[int(rng.integers(0, len(slice_dict)))]
+            plotter = sk.PlotlySankeyPlotter(mfa=mfa, slice_dict=dict(slice_dict, **{bad_l: "no such item"}), exclude_processes=list(excl_p), exclude_flows=list(excl_f), flow_color_dict=dict(colors), **kw_disp)
+            try:
+                plotter.plot()
+            except Exception:
+                rec.event(MS, sig=sig + "|failed-first", cls="sankey|plot-after-a-refused-plot")
+            plotter.slice_dict = dict(slice_dict)
+        else:
+            plotter = sk.PlotlySankeyPlotter(mfa=mfa, slice_dict=dict(slice_dict), exclude_processes=list(excl_p), exclude_flows=list(excl_f), flow_color_dict=dict(colors), **kw_disp)
         fig = plotter.plot()
     except Exception as e:
         rec.violation(MS, "sankey:raised-on-a-valid-configuration", {"exc": f"{type(e).__name__}: {str(e)[:300]}", "slice_dict": {k_: str(v) for k_, v in slice_dict.items()}, "split": split, "exclude_processes": excl_p})
@@ -96,6 +116,10 @@ def sankey_case(rec, hub, rng, tier, i):
     tr = fig.data[0]
     node_labels = list(tr.node.label)
     shown = [p for p in d.processes if p not in excl_p]
+    if node_labels != [dn(p) for p in shown]:
+        rec.violation(MS, "sankey:node-labels-differ-from-shown-processes", {"got": node_labels, "expected": [dn(p) for p in shown], "display_names": disp})
+        return
+    node_labels = list(shown)  # positions -> process names
     if node_labels != shown:
         rec.violation(MS, "sankey:node-labels-differ-from-shown-processes", {"got": node_labels, "expected": shown})
         return
@@ -113,10 +137,10 @@ def sankey_case(rec, hub, rng, tier, i):
             for it in items[l]:
                 exp.append((f["src"], f["dst"], as_float(m.cell[(it,)]), str(it)))
         else:
-            exp.append((f["src"], f["dst"], as_float(R.total()), n))
+            exp.append((f["src"], f["dst"], as_float(R.total()), dn(n)))
     exp = sorted(exp)
     if len(got) != len(exp):
-        rec.violation(MS, "sankey:number-of-links-differs", {"got": len(got), "expected": len(exp), "exclude_processes": excl_p, "exclude_flows": excl_f, "split": split})
+        rec.violation(MS, "sankey:number-of-links-differs", {"got": len(got), "expected": len(exp), "exclude_processes": excl_p, "exclude_flows": excl_f, "split": split, "display_names": disp, "after_a_refused_plot": fail_first})
         return
     for g, e in zip(got, exp):
         if g[:2] != e[:2] or g[3] != e[3]:
